@@ -2,7 +2,7 @@
 from __future__ import annotations
 
 import ast
-from typing import List, Optional, Set
+from typing import Dict, List, Optional, Set
 
 from ..report import Finding, Run
 from ..rx.lang import Lang, difference_witness
@@ -278,6 +278,8 @@ def check(model: Model, run: Run) -> None:
             run.fail(Finding("J2-escape-lead-byte-escaped", f"{FILTER}.{esite.name}", f"lead={chr(lead)!r}", "the escape character itself is not escaped", model.loc(FILTER, esite.node)))
     parser_structure_rules(model, run, unesc)
     operator_agreement(model, run)
+    exact_markers(model, run)
+    empty_values_accepted(model, run)
     from .c19 import parse_results_fresh
     parse_results_fresh(model, run, "sansldap._filter", "J5-parse-results-are-fresh", "from_string(str(f)) == f")
 
@@ -381,6 +383,135 @@ def parser_structure_rules(model: Model, run: Run, unesc) -> None:
                     run.fail(Finding("J6-present-iff-raw-asterisk", fi.qualname, "FilterPresent condition", f"{fi.name} returns a presence filter under {lits[-3:]}: it must be chosen exactly when "
                                      "the raw value text is b'*'; anything wider turns substring filters whose text it also covers into presence filters", model.loc(fi.module, r)))
     run.floor("FilterPresent returns in the filter string parser", n6, 1)
+
+
+CASE_FOLDS = ("lower", "upper", "casefold", "swapcase", "title", "capitalize")
+
+J9_FIXTURE = "def f(parts):\n    if parts and parts[0].lower() == 'dn':\n        return True\n    return False\n"
+
+
+def _case_folded_compares(func_node: ast.AST):
+    out = []
+    for c in walk_no_nested(func_node):
+        if isinstance(c, ast.Compare) and len(c.ops) == 1 and isinstance(c.ops[0], (ast.Eq, ast.NotEq, ast.In, ast.NotIn)):
+            sides = [c.left, c.comparators[0]]
+            folded = [x for x in sides if any(isinstance(y, ast.Call) and isinstance(y.func, ast.Attribute) and y.func.attr in CASE_FOLDS for y in ast.walk(x))]
+            lits = [x for x in sides if any(isinstance(y, ast.Constant) and isinstance(y.value, (str, bytes)) for y in ast.walk(x))]
+            if folded and lits and folded[0] is not lits[0]:
+                out.append(c)
+    return out
+
+
+def exact_markers(model: Model, run: Run) -> None:
+    """J9: the text form is case-exact (the serialiser writes its markers one way, attribute descriptions and matching-rule
+    names are kept as given and compared case-sensitively), so the string parser never compares case-folded text with a
+    literal: a folded comparison takes some spelling that is a valid name (`DN` as a matching rule) for a marker."""
+    from ..anchors import filt as filter_anchors
+    fa = filter_anchors(model)
+    fx = ast.parse(J9_FIXTURE).body[0]
+    if len(_case_folded_compares(fx)) != 1:
+        raise AnalysisError("J9 self-check failed on its fixture")
+    n = 0
+    for fi in fa.parser_functions:
+        n += 1
+        bad = _case_folded_compares(fi.node)
+        run.ob("J9-markers-compared-exactly", not bad, {"function": fi.name})
+        for c in bad:
+            run.fail(Finding("J9-markers-compared-exactly", fi.qualname, norm(c)[:80],
+                             f"{fi.name} decides `{norm(c)[:80]}` on case-folded text: a spelling the serialiser never writes is taken for the marker, although with that "
+                             "spelling it is a valid name of its own (an extensible match with rule `DN` no longer parses back to itself)", model.loc(fi.module, c)))
+    run.floor("filter string parser functions", n, 4)
+
+
+def empty_values_accepted(model: Model, run: Run) -> None:
+    """J10: an assertion value may be empty (`(cn=)` is what str() writes for value b""), so no syntax error is raised under a
+    test that the value's extent is zero.  The value is followed back from the `value=` / substring arguments of the filter
+    constructors through assignments and calls to the slice of the input it was cut from."""
+    from ..anchors import filt as filter_anchors
+    from ..srcmodel import dominating_literals
+    fa = filter_anchors(model)
+    filt_classes = set(model.subclasses(f"{FILTER}.LDAPFilter", strict=True))
+    n_val = 0
+    n_raise = 0
+    for fi in fa.parser_functions:
+        binds: Dict[str, List[ast.expr]] = {}
+        for a in walk_no_nested(fi.node):
+            if isinstance(a, (ast.Assign, ast.AnnAssign)) and a.value is not None:
+                for t_ in (a.targets if isinstance(a, ast.Assign) else [a.target]):
+                    if isinstance(t_, ast.Name):
+                        binds.setdefault(t_.id, []).append(a.value)
+        # backwards from the constructor arguments that carry assertion octets
+        names: Set[str] = set()
+        todo: List[ast.expr] = []
+        for c in walk_no_nested(fi.node):
+            if isinstance(c, ast.Call) and isinstance(c.func, (ast.Name, ast.Attribute)):
+                q = model.resolve_name(fi.module, norm(c.func))
+                if q in filt_classes:
+                    bf = set(bytes_fields(model, q))
+                    fields = [f.name for f in model.dataclass_fields(q) if f.init]
+                    for fname, arg in list(zip(fields, c.args)) + [(k.arg, k.value) for k in c.keywords if k.arg]:
+                        if fname in bf:
+                            todo.append(arg)
+        seen = set()
+        while todo:
+            e = todo.pop()
+            for x in ast.walk(e):
+                if isinstance(x, ast.Name) and x.id not in seen:
+                    seen.add(x.id)
+                    if x.id in binds:
+                        names.add(x.id)
+                        todo.extend(binds[x.id])
+        if not names:
+            continue
+        n_val += 1
+        # extents: L in  <view>[a : a + L]  /  <view>[a:b] with b = a + L, for a value name
+        extents: Set[str] = set()
+        for nm in names:
+            for b in binds.get(nm, []):
+                for x in ast.walk(b):
+                    if isinstance(x, ast.Subscript) and isinstance(x.slice, ast.Slice) and x.slice.upper is not None:
+                        up = x.slice.upper
+                        if isinstance(up, ast.BinOp) and isinstance(up.op, ast.Add):
+                            for side in (up.left, up.right):
+                                if isinstance(side, ast.Name) and (x.slice.lower is None or norm(side) != norm(x.slice.lower)):
+                                    extents.add(side.id)
+
+        def emptiness(l: str) -> Optional[str]:
+            e = ast.parse(l, mode="eval").body
+            neg = False
+            if isinstance(e, ast.UnaryOp) and isinstance(e.op, ast.Not):
+                neg, e = True, e.operand
+            if neg and isinstance(e, ast.Name) and e.id in names | extents:
+                return e.id
+            if neg and isinstance(e, ast.Call) and norm(e.func) == "len" and e.args and isinstance(e.args[0], ast.Name) and e.args[0].id in names:
+                return e.args[0].id
+            if not neg and isinstance(e, ast.Compare) and len(e.ops) == 1:
+                a, b, op = e.left, e.comparators[0], e.ops[0]
+                for x, y, flip in ((a, b, False), (b, a, True)):
+                    who = x.id if isinstance(x, ast.Name) and x.id in extents else \
+                        x.args[0].id if isinstance(x, ast.Call) and norm(x.func) == "len" and x.args and isinstance(x.args[0], ast.Name) and x.args[0].id in names else None
+                    if who and isinstance(y, ast.Constant) and isinstance(y.value, int):
+                        k = y.value
+                        t_ = type(op)
+                        if flip:
+                            t_ = {ast.Lt: ast.Gt, ast.Gt: ast.Lt, ast.LtE: ast.GtE, ast.GtE: ast.LtE}.get(t_, t_)
+                        if (t_ is ast.Eq and k == 0) or (t_ is ast.Lt and k == 1) or (t_ is ast.LtE and k == 0):
+                            return who
+                    if isinstance(x, ast.Name) and x.id in names and isinstance(y, ast.Constant) and y.value in (b"", "") and isinstance(op, ast.Eq):
+                        return x.id
+            return None
+        for r in walk_no_nested(fi.node):
+            if isinstance(r, ast.Raise):
+                n_raise += 1
+                hits = [(l, emptiness(l)) for l in dominating_literals(fi.node, r)]
+                hits = [(l, w) for l, w in hits if w]
+                run.ob("J10-empty-assertion-value-accepted", not hits, {"function": fi.name, "raise_line": r.lineno})
+                for l, w in hits:
+                    run.fail(Finding("J10-empty-assertion-value-accepted", fi.qualname, l[:80],
+                                     f"{fi.name} raises a syntax error when `{l[:60]}`: `{w}` is the extent of an assertion value, and the empty value is valid "
+                                     "(str() writes `(attr=)` for it), so such a filter no longer parses back", model.loc(fi.module, r)))
+    run.floor("parser functions building filters with assertion values", n_val, 1)
+    run.floor("raise statements in those functions", n_raise, 2)
 
 
 def operator_agreement(model: Model, run: Run) -> None:
